@@ -108,3 +108,22 @@ class LedgerMonitor(Monitor):
                 rows.append(ledger_row(o) + (o.profit,))
         self.rows = rows
         self.res.digest = core.digest((self.events, rows))
+
+
+def strategy_ledger(mon, name):
+    """Normalised ledger of one strategy: per order (in its own creation order) the economic facts,
+    status changes with simulated times, fragments and profit; ids removed."""
+    vids = []
+    for r in mon.rows:
+        if r[1] == name:
+            vids.append(r[0])
+    vids.sort()
+    idx = {v: i for i, v in enumerate(vids)}
+    st = {}
+    for e in mon.events:
+        if e[0] == "st" and e[1] in idx:
+            st.setdefault(idx[e[1]], []).append((e[3], e[4]))
+    out = []
+    for r in sorted((r for r in mon.rows if r[1] == name), key=lambda r: r[0]):
+        out.append((idx[r[0]],) + tuple(r[2:]) + (tuple(st.get(idx[r[0]], ())),))
+    return out
